@@ -229,7 +229,7 @@ func H15_Core() {
 	settle()
 	fl := verif.U64("flags")
 	verif.Assume(fl&^uint64(bpv7.StatusRequestReception|bpv7.StatusRequestForward|bpv7.StatusRequestDelivery|bpv7.StatusRequestDeletion|bpv7.RequestStatusTime) == 0)
-	outcome := verif.Choose("outcome", 6)
+	outcome := verif.Choose("outcome", 7) // 6: the lifetime has run out when the bundle is to be forwarded
 	if shards := verif.Param("shards", 1); shards > 1 {
 		verif.Assume(outcome%shards == verif.Param("shard", 0))
 	}
@@ -237,6 +237,11 @@ func H15_Core() {
 	// localSrc: the bundle is submitted by a local application (source is an endpoint of this node) instead of being
 	// received from peer 1; only for the outcomes that involve forwarding
 	localSrc := outcome >= 2 && outcome <= 4 && verif.Bool("localsrc")
+	// the bundle is a fragment: reports name its offset and length
+	isFrag := !localSrc && verif.Bool("fragment")
+	if isFrag {
+		fl |= uint64(bpv7.IsFragment)
+	}
 	dst := "dtn://far/inbox"
 	switch outcome {
 	case 0:
@@ -273,6 +278,13 @@ func H15_Core() {
 	}
 	b, err := bl.Build()
 	verif.Assume(err == nil)
+	if outcome == 6 {
+		// created two hours ago with a lifetime of one hour (handed up by a convergence layer that does not judge lifetimes)
+		b.PrimaryBlock.CreationTimestamp = bpv7.NewCreationTimestamp(bpv7.DtnTimeFromTime(time.Now().Add(-2*time.Hour)), 0)
+	}
+	if isFrag {
+		b.PrimaryBlock.FragmentOffset, b.PrimaryBlock.TotalDataLength = 3, 40
+	}
 	if localSrc {
 		c.SendBundle(&b)
 		settle()
@@ -292,7 +304,7 @@ func H15_Core() {
 		}
 	}
 	local := outcome == 0 || outcome == 1
-	deleted := outcome == 4 || (outcome == 5 && blockFlags&bpv7.DeleteBundle != 0)
+	deleted := outcome == 4 || outcome == 6 || (outcome == 5 && blockFlags&bpv7.DeleteBundle != 0)
 	if local {
 		verif.Assert(dataSends == 0, "a bundle for a local endpoint is not transmitted to peers")
 		verif.Assert(delivered == (outcome == 0), "it is handed to the agent registered for exactly that endpoint")
@@ -337,6 +349,12 @@ func H15_Core() {
 		verif.Assert(sr.b.PrimaryBlock.Destination == b.PrimaryBlock.ReportTo, "a report is addressed to the bundle's report-to endpoint")
 		id := b.ID()
 		verif.Assert(sr.rep.RefBundle.SourceNode == id.SourceNode && sr.rep.RefBundle.Timestamp == id.Timestamp && sr.rep.RefBundle.IsFragment == id.IsFragment, "a report names the bundle's exact ID")
+		if isFrag {
+			verif.Assert(sr.rep.RefBundle.FragmentOffset == 3 && sr.rep.RefBundle.TotalDataLength == 40, "a report about a fragment names its offset and total length")
+		}
+		if outcome == 6 && sips[0] == bpv7.DeletedBundle {
+			verif.Assert(sr.rep.ReportReason == bpv7.LifetimeExpired, "a deletion because of the lifetime says so")
+		}
 		item := sr.rep.StatusInformation[sips[0]]
 		verif.Assert(item.StatusRequested == (fl&uint64(bpv7.RequestStatusTime) != 0), "a report carries a time only if requested")
 	}
@@ -403,3 +421,4 @@ func H07_Ping() {
 	verif.Assert(pongs == 1, "exactly one answer per accepted ping reaches the other peer")
 	verif.Reach("end")
 }
+
